@@ -52,6 +52,14 @@ CLAIMED = {
   text="Proof over all schedules via the connection monitor: the transport closer is consumed only when the connection is idle and shutting down, and at most once (T9, K7); done is closed only when additionally the reader is gone, and then stays closed (K4, T1); shutdown flags are monotone; nothing is enqueued and no call admitted during shutdown (T5, T5b); Notify gives back its pending-notification slot on every path exactly when it took one; the 'transitioned to non-idle when already done' and 'incoming count already zero' panics are unreachable.",
   note=montrust+" Not decided (liveness / whole-history): that Close and Wait return, absence of deadlock and of leaked goroutines or timers; session-level Close ordering (ServerSession.Close, disconnect) not yet under contract.",
   ref="DESIGN.md 10/C05"),
+ "C12": dict(
+  text="Proof (all requests and handler options): StreamableHTTPHandler.ServeHTTP is verified against a contract over ghost call logs: every request is either handed to exactly one of serveStateless/serveStateful or rejected with exactly one http.Error, never both; a dispatched request with a body and a configured limit has its body wrapped by http.MaxBytesReader with exactly that limit; a non-loopback Host on a loopback listener and a failed cross-origin check are rejected with 403 before dispatch; an unsupported legacy Mcp-Protocol-Version header is rejected before dispatch; stateless dispatch iff configured. collectParamHeaderAnnotations: every produced binding has a freshly allocated path and earlier bindings are unchanged (loop invariants).",
+  note="Trusted: util.IsLoopback, http.MaxBytesReader, CrossOriginProtection.Check, context/net accessors (stdlib.spec), A-FRAME for library calls. Not decided: method/Accept/Content-Type/session checks inside serveStateless/servePOST/serveGET (not under contract), the 2026-07-28 header/body agreement in validateMcpHeaders (suspected defect F3: empty Mcp-Method header, not yet under contract), client-side header mirroring, SSE handler.",
+  ref="DESIGN.md 10/C12"),
+ "C19": dict(
+  text="Proof (all inputs) for the SDK-owned part of the JSON-RPC codec: MakeID/StringID/Int64ID/IsValid (type-preserving id coercion), decodeID (an id that strconv.ParseInt accepts becomes exactly that int64 with no float64 step; otherwise MakeID of the generic decode), DecodeMessage after the library decode (exactly one of message/error; id error propagates; a message with a method key is a Request carrying the decoded id; otherwise a Response with a valid id), Request/Response.marshal (id value, method, params, result copied; error mapped by toWireError), WireError.Is (code equality). A raw QF_BVFP lemma decides float64 coercion exactness: proved for |n| <= 2^53, refuted over the whole int64 range - that refutation found defect F4 (message ids above 2^53 altered), repaired by a fix: commit; the residue (ids inside params still coerced through float64) is a listed known finding.",
+  note="Trusted: encoding/json and internal/json (Unmarshal writes only through its destination; number -> float64 nearest-double axiom J1), strconv.ParseInt (opaque: exact by its documentation), fmt.Errorf non-nil. Not decided: byte-level round trip through encoding/json, ndjson/SSE framing (C09 territory), content/result custom JSON methods in mcp/content.go and mcp/protocol.go, never-panics-on-arbitrary-bytes of the library decoders.",
+  ref="DESIGN.md 10/C19"),
 }
 
 NOT_YET = "contracts not completed yet (build in progress; see DESIGN.md section 12)"
